@@ -1034,9 +1034,6 @@ func (c *fnCtx) natOf(e ast.Expr) string {
 
 // newHidden: a hidden parameter (the tail of a slice between its length and its capacity) of the function being translated
 func (c *fnCtx) newHidden(n ast.Node, base, leanType string) string {
-	if c.block {
-		c.fail(n, "the capacity of a slice inside a block/cond item (only whole functions take hidden tails)")
-	}
 	if c.loop > 0 {
 		c.fail(n, "the capacity of a slice inside a loop (every iteration would need a hidden tail of its own)")
 	}
